@@ -83,7 +83,7 @@ Print Assumptions C03_tie_ack.
    output queue and a transport that ACCEPTS writes, REFUSES them (BlockingIOError) or FAILS HARD (OSError: the
    connection is torn down inside the write) are modelled; events distinguish a packet
    HANDED to the connection from a packet WRITTEN; reconnect() drops what is still queued.
-   [no_fail ops]: the history contains no hard write failure ([OTransport TFail]). *)
+   Every theorem below quantifies over ALL conforming histories, hard write failures included. *)
 From PahoV Require Import Session2.Model Session2.Check Session2.Statements Session2.C03Proofs.
 
 (* ARBITRARY histories, hard write failures included. The receiver refinement with replies that may be deferred: replies are handed to the queue in the operation that processes the inbound packet, in the abstract receiver's order *)
